@@ -199,6 +199,16 @@ def coq_eval_shards(prop, shards, imports=IMPORTS, timeout=900):
     returns list of (rc, output) in order.  Needs the imported .vo files built."""
     d = run_dir(prop)
     names = []
+    # every model file the case files import is brought up to date first (a model file edited since the
+    # last full build would otherwise be loaded stale: "inconsistent assumptions")
+    mods = set()
+    for text in [imports] + list(shards[:1]):
+        for blk in re.findall(r'From YV Require Import ([^.]*(?:\.[A-Za-z_][^.]*)*)\.\s', text + ' '):
+            for m in blk.split():
+                if re.fullmatch(r'[a-z]+\.[A-Za-z0-9_]+', m):
+                    mods.add(m.replace('.', '/') + '.vo')
+    if mods:
+        build(sorted(mods))
     for i, text in enumerate(shards):
         p = os.path.join(d, 'cases_%04d.v' % i)
         with open(p, 'w') as f:
